@@ -204,7 +204,20 @@ def rule_signed_yaw(ctx: Ctx, scope, rule: str = "R-SIGNEDYAW") -> None:
 def rule_heading_error(ctx: Ctx) -> None:
     fi = ctx.func(OBJQ + "get_heading_error")
     clipq = OBJQ + "get_heading_error.<locals>._clip"
-    ctx.require(ctx.index.has_func(clipq), "get_heading_error: the wrap helper _clip was not found")
+    if not ctx.index.has_func(clipq):
+        # the wrap helper may have been renamed / moved: it is whatever function the three differences are passed to
+        names = set()
+        for n in ast.walk(fi.node):
+            if isinstance(n, ast.Return) and isinstance(n.value, ast.Tuple):
+                for e in n.value.elts:
+                    if isinstance(e, ast.Call) and isinstance(e.func, ast.Name):
+                        names.add(e.func.id)
+            if isinstance(n, (ast.Assign, ast.AnnAssign)) and isinstance(n.value, ast.Call) and isinstance(n.value.func, ast.Name) and n.value.args and isinstance(n.value.args[0], ast.BinOp) and isinstance(n.value.args[0].op, ast.Sub):
+                names.add(n.value.func.id)
+        cands = [q for nm in names for q in (OBJQ + f"get_heading_error.<locals>.{nm}", "common.object." + nm) if ctx.index.has_func(q)]
+        ctx.require(len(cands) == 1, "get_heading_error: the wrap helper _clip was not found")
+        clipq = cands[0]
+    HELPER = clipq.rsplit(".", 1)[1]
     cf = ctx.func(clipq)
     arg = cf.node.args.args[0].arg
     paths = enum_paths(ctx, cf)
@@ -244,7 +257,7 @@ def rule_heading_error(ctx: Ctx) -> None:
                   fi=cf, expected=want, found=repr(total)[:120], sample={"range": which, "shift": want})
     ctx.require(rows == {"lo", "hi", "mid"}, f"_clip: ranges {sorted(rows)} – expected below -pi / above pi / inside")
     # the three components are other - self, through the same helper, in (roll, pitch, yaw) order
-    paths = enum_paths(ctx, fi)
+    paths = enum_paths(ctx, fi, inline_new=False)  # the helper itself was analysed above: keep its calls as calls
     for p in paths:
         if p.facts.get("none:other"):
             ctx.check(p.retval is not None and S(p.retval) == "None", "C09-heading-error", "get_heading_error", "no-other", "without a counterpart the error must be None", fi=fi)
@@ -255,7 +268,7 @@ def rule_heading_error(ctx: Ctx) -> None:
             continue
         ctx.require(isinstance(rv, ast.Tuple) and len(rv.elts) == 3, "get_heading_error: does not return a 3-tuple")
         for axis, idx, e in zip(("roll", "pitch", "yaw"), (2, 1, 0), rv.elts):
-            want = f"_clip(other.state.orientation.yaw_pitch_roll[{idx}]-self.state.orientation.yaw_pitch_roll[{idx}])"
+            want = f"{HELPER}(other.state.orientation.yaw_pitch_roll[{idx}]-self.state.orientation.yaw_pitch_roll[{idx}])"
             ctx.check(S(e) == want, "C09-heading-error", "get_heading_error", axis,
                       f"{axis} error is `{S(e)[:120]}`; expected `{want}` (other minus self, wrapped by the same helper)", fi=fi, expected=want, found=S(e)[:160])
 
